@@ -26,7 +26,8 @@ CoreT<TArgs>::CoreT(PureContext&& context_
 template <typename TArgs>
 FFSM2_CONSTEXPR(11)
 CoreT<TArgs>::CoreT(const CoreT& other) noexcept
-	: context {other.context }
+	: FFSM2_IF_TRANSITION_HISTORY(previousTransition{other.previousTransition},)
+	  context {other.context }
 	, registry{other.registry}
 	, request {other.request }
 	FFSM2_IF_PLANS			   (, planData			 {other.planData		   })
@@ -38,7 +39,8 @@ CoreT<TArgs>::CoreT(const CoreT& other) noexcept
 template <typename TArgs>
 FFSM2_CONSTEXPR(11)
 CoreT<TArgs>::CoreT(CoreT&& other) noexcept
-	: context {move(other.context )}
+	: FFSM2_IF_TRANSITION_HISTORY(previousTransition{move(other.previousTransition)},)
+	  context {move(other.context )}
 	, registry{move(other.registry)}
 	, request {move(other.request )}
 	FFSM2_IF_PLANS			   (, planData			 {move(other.planData			)})
